@@ -157,7 +157,7 @@ func Topo(kind string, shape PathShape, goFunc bool, root string, n int) *spec.S
 		conn("srb.out", "A2.in")
 		conn("A.out", "B.in")
 		conn("A2.out", "B.in")
-	case "chain", "emptyout":
+	case "chain", "emptyout", "oldmtime":
 		// "emptyout": the same chain, but the outputs of A and B are legitimately empty files (see TopoBehav)
 		addSrc("src", n)
 		addProc("A", in, []string{"out"}, nil, nil, pk)
@@ -275,6 +275,11 @@ func TopoBehav(kind string, exp *ref.Result) vproto.Behaviours {
 	if kind == "emptyout" {
 		bh["A"] = map[string]string{"size": "-1"}
 		bh["B"] = map[string]string{"size": "-1"}
+	}
+	if kind == "oldmtime" {
+		for _, pn := range []string{"A", "B", "C"} {
+			bh[pn] = map[string]string{"mtime": "old"}
+		}
 	}
 	if kind == "extra" {
 		for i, t := range exp.ByProc["A"] {
